@@ -54,7 +54,17 @@ func exploreFields(rt reflect.Type, tagName string, sorter KeySortMode) []Struct
 			// Scan f.Type for fields to include.
 			for i := 0; i < f.Type.NumField(); i++ {
 				sf := f.Type.Field(i)
-				if sf.PkgPath != "" && !sf.Anonymous { // unexported
+				if sf.Anonymous {
+					t := sf.Type
+					if t.Kind() == reflect.Ptr {
+						t = t.Elem()
+					}
+					if sf.PkgPath != "" && t.Kind() != reflect.Struct {
+						// Ignore embedded fields of unexported non-struct types.
+						// (Embedded unexported struct types may still have exported fields.)
+						continue
+					}
+				} else if sf.PkgPath != "" { // unexported
 					continue
 				}
 				tag := sf.Tag.Get(tagName)
